@@ -45,6 +45,8 @@ func nameRole(path []string, fv *types.Var) int {
 }
 
 func runC09(w *World, r *Report) {
+	// the connection a call is routed to is looked up under (address, database) exactly
+	defer ruleKeyComponentsVerbatim(w, r, "C09-R12")
 	r.Rule("C09-R1", "mapped names at every downstream call", "for each c.dataHandler.M(param): ReplicateParam.Database (when M routes by it) and every DbName/CollectionName(s)/Name field of the request derive on every path from mapDBAndCollectionName results (index 0 for databases, 1 for collections)", 40)
 	r.Rule("C09-R2", "bookkeeping keeps source names", "no argument of WaitObjReady / util.Get*InfoKeys, and no event field read by WaitObjReadyForAPIEvent, derives from a mapping result at the call", 80)
 	r.Rule("C09-R3", "mapping precedence independent of iteration order", "in the Range callback of mapDBAndCollectionName a `return false` is reachable only when sourceCollection == collection held (exact match)", 2)
